@@ -522,7 +522,7 @@ pub fn gen(thorough: bool, seed: u64, w: &mut dyn Write) {
         writeln!(w, "parse {} {}{}", kind_of(func), hex(&frag), if r.chance(1, 8) { " z" } else { "" }).unwrap();
     }
 
-    // (6) ranges ending at index 65535 for every ranged payload kind (incl. octet strings: D2)
+    // (6) ranges ending at index 65535 for every ranged payload kind (incl. octet strings: former defect D2)
     for &(g, v) in &[(1u8, 1u8), (1, 2), (3, 1), (10, 2), (20, 1), (30, 5), (40, 4), (80, 1), (102, 1), (110, 1), (110, 4), (110, 0), (110, 255)] {
         for &(s, e) in &[(65535u16, 65535u16), (65534, 65535), (65530, 65535), (65534, 65534)] {
             for &func in &[129u8, 2, 1] {
@@ -698,12 +698,6 @@ fn spec_len(q: u8) -> usize {
     }
 }
 
-/// cause predicate of D2: the object octets contain an octet-string (g110) header with a 16-bit range
-/// whose stop index is 65535
-fn has_d2_header(objs: &[u8]) -> bool {
-    objs.windows(7).any(|w| w[0] == 110 && w[2] == 0x01 && w[5] == 0xFF && w[6] == 0xFF)
-}
-
 /// monitors over one `parse` dump (independent of the model; reference knowledge only)
 fn monitor_parse(hdrline: &str, resp: bool, bytes: &[u8], lines: &[String], mon: &mut dyn Write, stats: &mut Stats) -> bool {
     let fail = |mon: &mut dyn Write, name: &str, detail: &str| {
@@ -773,8 +767,7 @@ fn monitor_parse(hdrline: &str, resp: bool, bytes: &[u8], lines: &[String], mon:
     }
     if panicked {
         stats.hit("res_panic");
-        let cause = if !is_read && has_d2_header(objs) { " cause=D2" } else { "" };
-        fail(mon, &format!("no_panic{cause}"), &lines.iter().filter(|l| l.contains("panic")).cloned().collect::<Vec<_>>().join(","));
+        fail(mon, "no_panic", &lines.iter().filter(|l| l.contains("panic")).cloned().collect::<Vec<_>>().join(","));
     }
     let rejected = lines.iter().any(|l| l.starts_with("objerr"));
     if rejected {
